@@ -24,7 +24,10 @@ TRUSTED = ["xarray interpolate_na / ffill / bfill / shift / integrate / sum(min_
            "(no longer trusted) the exact method's cell sums equal the Lebesgue integral of w(x)(F(x)-H(x))^2 with Mathlib's "
            "intervalIntegral: Props/C07Bridge.lean exact_eq_lebesgue (total, under, over), using Mathlib's fundamental theorem of calculus"]
 ASSUMPTIONS = ["ordinates and weights are dyadic (k/8), thresholds / observations small integers or halves: float arithmetic is exact "
-               "or compared to 1e-9", "thresholds and observations are finite or NaN (no infinities)",
+               "or compared to 1e-9; on the scaled grids (base + unit*k: 1e5, 2^30, 1e9, epoch seconds, 2^40, 1 + k*2^-20, k*2^-20, "
+               "k*2^-30, negative ranges, non-uniform gaps 1..1000 units) every threshold / observation is an exactly representable "
+               "float64 (asserted in rationals), scores are compared to 1e-9 relative to the value and the row total, observed_cdf "
+               "values and threshold grids exactly", "thresholds and observations are finite or NaN (no infinities)",
                "the score is observed per forecast case (preserve_dims = all non-threshold dims); the mean over cases is checked as a relation"]
 MANIFEST = dict(
     level="proof",
@@ -39,7 +42,10 @@ MANIFEST = dict(
          "the source by the AST translator on every run; the whole pipeline (grid = union of fcst / all obs / weight / additional "
          "thresholds, 4 fill methods for forecast and weight, propagate_nans, components, guards) is tied by a differential "
          "correspondence over all 4 x 2 x 2 option combinations per case, and an independent oracle compares the implementation with "
-         "the exact integral computed by the Lean Spec from the ORIGINAL knots (fill as a function of the knots), plus the relations.",
+         "the exact integral computed by the Lean Spec from the ORIGINAL knots (fill as a function of the knots), plus the relations. "
+         "The oracle also runs on thresholds / observations at large and small numeric scale (exactly representable values at 1e5 ... "
+         "2^40 and 2^-30, observation a hair above / below a threshold) and compares observed_cdf itself with the Spec's indicator "
+         "1{x >= obs} exactly: a tolerance in the comparison threshold >= obs shows as a violation.",
     note="Trusted: Lean kernel; propext/Classical.choice/Quot.sound; SV.Fl (IEEE minus rounding/overflow/signed zero); py2lean; xarray "
          "interpolate_na / ffill / bfill / shift / integrate / sum(min_count) / broadcast modelled by documented meaning and compared, "
          "not verified. 'Integral' is Mathlib's Lebesgue interval integral: exact_eq_lebesgue (Props/C07Bridge.lean) for the exact method; the trapz "
@@ -55,14 +61,19 @@ MANIFEST = dict(
 RULE = ("random CDF arrays (2-6 thresholds, decreasing runs, plateaus, NaN, 0-2 extra dims in any order), observations on a threshold / "
         "between two / outside the grid / NaN, optional threshold weight (0/1 steps, general values in [0,1], NaN, own thresholds and dims), "
         "additional thresholds; every base case is run under all 4 fill x 2 integration x 2 propagate_nans combinations (components on; "
-        "components off compared for the total); distinct = distinct (base case, options); non-trivial = some non-NaN result and not malformed")
+        "components off compared for the total); plus, every run, each numeric SCALE of thresholds / observations (1e5+k/4, 1e5+25k, 2^30+k, "
+        "1e9+k/4, epoch+3600k, 2^40+k/8, 1+k*2^-20, k*2^-20, k*2^-30, -40+k/2, either sign, non-uniform gaps) with the observation on a "
+        "threshold / mid-cell / a hair (unit/2^j, j<=10) above or below a threshold / outside the grid / NaN, checked for crps_cdf exact "
+        "and trapz, the Brier decomposition and observed_cdf itself (H = 1{x>=obs}, exact comparison); "
+        "distinct = distinct (base case, options); non-trivial = some non-NaN result and not malformed")
 
 FILLS = ["linear", "step", "forward", "backward"]
 INTEGS = ["exact", "trapz"]
 
 
 # ----------------------------------------------------------------------------- generators
-def gen_weight(rng, c, kind=None):
+def gen_weight(rng, c, kind=None, wthr_fn=None):
+    """wthr_fn(n): the weight's own thresholds (default: the order-1 pool of cc.gen_thresholds)"""
     kind = kind or rng.choice(["none", "none", "step", "step", "general", "general", "nan", "gap"])
     if kind == "none":
         return None
@@ -74,7 +85,7 @@ def gen_weight(rng, c, kind=None):
     if rng.random() < 0.4:
         wthr = list(c["thr"])
     else:
-        wthr = cc.gen_thresholds(rng, rng.randint(1, 5))
+        wthr = (wthr_fn or (lambda k: cc.gen_thresholds(rng, k)))(rng.randint(1, 5))
     n = len(wthr)
     rows = []
     for _ in range(size):
@@ -142,6 +153,165 @@ def with_opts(base, fillF, integ, propagate, components=True):
     if base.get("malformed") == "integ":
         c["integ"] = "simpson"
     return c
+
+
+# ---- the numeric SCALE of thresholds and observations
+# value = sign * (base + unit * k), k a small dyadic: every value is exactly representable in float64 (asserted), so the
+# model value IS the float's value and "strictly between", "on the threshold", "just above" are facts, not roundings.
+SCALES = {
+    # name: (base, unit)
+    "1e5+k/4": (Fraction(100000), Fraction(1, 4)),            # pressure in Pa; spacing / magnitude = 2.5e-6
+    "1e5+25k": (Fraction(100000), Fraction(25)),              # pressure in Pa, coarse levels
+    "2^30+k": (Fraction(2 ** 30), Fraction(1)),               # spacing / magnitude = 9.3e-10
+    "1e9+k/4": (Fraction(10 ** 9), Fraction(1, 4)),
+    "epoch+3600k": (Fraction(1700000000), Fraction(3600)),    # epoch seconds, hourly thresholds; 2.1e-6
+    "2^40+k/8": (Fraction(2 ** 40), Fraction(1, 8)),
+    "1+k*2^-20": (Fraction(1), Fraction(1, 2 ** 20)),         # order 1 with very fine spacing; 9.5e-7
+    "k*2^-20": (Fraction(0), Fraction(1, 2 ** 20)),           # small magnitude
+    "k*2^-30": (Fraction(0), Fraction(1, 2 ** 30)),           # spacing below any absolute tolerance of 1e-8 / 1e-9
+    "-40+k/2": (Fraction(-40), Fraction(1, 2)),               # ordinary spacing, negative range
+}
+LARGE = ("1e5+k/4", "1e5+25k", "2^30+k", "1e9+k/4", "epoch+3600k", "2^40+k/8")
+GAPS = [1, 1, 1, 2, 3, 4, 5, 8, 16, 64, 1000]
+
+
+def exact_float(q):
+    """the float of an exactly representable rational (None when q is not a float64)"""
+    x = float(q)
+    return x if Fraction(x) == q else None
+
+
+def gen_scaled_base(rng, scale=None, near=None):
+    """a base case on the numeric scale `scale`: non-uniform grid, the observation on a threshold / in the middle of a
+    cell / VERY close above or below a threshold (unit/2^j, j up to 10: relative distance down to 1e-13, exactly
+    representable) / outside the grid by a hair or by far / NaN; weight and additional thresholds on the same scale"""
+    scale = scale or rng.choice(list(SCALES))
+    base, unit = SCALES[scale]
+    sign = -1 if rng.random() < 0.3 else 1
+
+    def val(k):
+        x = exact_float(sign * (base + unit * Fraction(k)))
+        assert x is not None, (scale, k)
+        return x
+
+    def grid(n, k0=None):
+        k0 = rng.randint(-8, 8) if k0 is None else k0
+        uniform = rng.random() < 0.3
+        g = rng.choice([1, 2, 4])
+        return sorted(val(k) for k in itertools.accumulate([k0] + [g if uniform else rng.choice(GAPS) for _ in range(n - 1)]))
+
+    n = rng.randint(2, 6)
+    thr = grid(n)
+    names = rng.sample(["a", "b"], rng.choice([0, 1, 1, 2]))
+    extra = {d: rng.choice([1, 2, 3]) for d in sorted(names)}
+    nrows = 1
+    for v in extra.values():
+        nrows *= v
+    rows = []
+    for _ in range(nrows):
+        r = rng.random()
+        rows.append([cc.NAN] * n if r < 0.06 else cc.gen_cdf(rng, n, nan_p=0.25) if r < 0.25 else cc.gen_cdf(rng, n))
+    order = list(extra) + ["T"]
+    rng.shuffle(order)
+    c = {"thr": thr, "rows": rows, "extra": extra, "order": order, "oob": False, "scale": scale}
+    # observations
+    od = sorted(extra) if rng.random() < 0.75 else sorted(rng.sample(sorted(extra), rng.randint(0, len(extra))))
+    size = 1
+    for d in od:
+        size *= extra[d]
+
+    def off(t, direction, far=None):
+        """t ± unit/2^j (a hair: j as large as float64 allows, at most 10) or t ± unit*far — exact, in rationals"""
+        if far is not None:
+            x = exact_float(Fraction(t) + direction * unit * far)
+            assert x is not None, (scale, t, far)
+            return x
+        for j in sorted(rng.sample([1, 2, 4, 7, 10], 2), reverse=True) + [1, 0]:
+            x = exact_float(Fraction(t) + direction * unit / 2 ** j)
+            if x is not None:
+                return x
+        raise AssertionError((scale, t))
+
+    vals = []
+    for _ in range(size):
+        kind = near or rng.choice(["on", "mid", "above", "above", "above", "below", "below", "out-hair", "out-far", "nan"])
+        i = rng.randrange(len(thr))
+        if kind == "mid" and len(thr) >= 2:
+            i = rng.randrange(len(thr) - 1)
+            v = exact_float((Fraction(thr[i]) + Fraction(thr[i + 1])) / 2)
+            v = thr[i] if v is None else v
+        elif kind in ("above", "mid"):
+            v = off(thr[i], 1)            # strictly inside the cell above thr[i] (cells are at least one unit wide)
+        elif kind == "below":
+            v = off(thr[i], -1)
+        elif kind == "out-hair":
+            v = off(thr[0], -1) if rng.random() < 0.5 else off(thr[-1], 1)
+        elif kind == "out-far":
+            far = rng.choice([1, 3, 1000])
+            v = off(thr[0], -1, far) if rng.random() < 0.5 else off(thr[-1], 1, far)
+        elif kind == "on":
+            v = thr[i]
+        else:
+            v = cc.NAN
+        vals.append(v)
+    od2 = list(od)
+    rng.shuffle(od2)
+    c.update(obs_dims=od, obs_vals=vals, obs_order=od2)
+    c["w"] = gen_weight(rng, c, wthr_fn=lambda k: grid(k, rng.randint(-10, 20)))
+    c["fillW"] = rng.choice(["forward", "forward", "backward", "step", "linear"])
+    if c["fillW"] == "linear" and c["w"] is not None:
+        # weight knots on gaps unit * 2^j (as in gen_base)
+        c["w"]["thr"] = sorted(val(k) for k in itertools.accumulate([rng.randint(-4, 4)] + [rng.choice([1, 2, 4]) for _ in range(len(c["w"]["thr"]) - 1)]))
+    c["additional"] = rng.choice([None, None, [], [val(rng.randint(-12, 40)) for _ in range(rng.randint(1, 3))]])
+    c["malformed"] = None
+    return c
+
+
+def scale_tags(ctx, c):
+    ctx.tag("scale:" + c["scale"])
+    for o in c["obs_vals"]:
+        if math.isnan(o):
+            continue
+        below = [t for t in c["thr"] if t < o]
+        if o in c["thr"]:
+            ctx.tag("scaled-obs:on-threshold")
+        elif not below or o > max(c["thr"]):
+            ctx.tag("scaled-obs:outside-grid")
+        else:
+            ctx.tag("scaled-obs:strictly-between")
+        near = [t for t in c["thr"] if t != o and abs(t - o) <= 1e-5 * abs(o)]
+        if near:
+            ctx.tag("scaled-obs:threshold-within-1e-5-relative")
+        if any(t != o and abs(t - o) <= 1e-8 for t in c["thr"]):
+            ctx.tag("scaled-obs:threshold-within-1e-8-absolute")
+
+
+# fixed instances of the class (independent of the seed): observation strictly between two thresholds at large magnitude
+SCALED_FIXED = [
+    dict(thr=[100000.0, 100500.0, 101000.0, 101325.0, 101500.0, 102000.0], rows=[[0.0, 0.125, 0.25, 0.375, 0.625, 1.0]], extra={},
+         order=["T"], oob=False, scale="1e5+25k", obs_dims=[], obs_vals=[101325.875], obs_order=[], w=None, fillW="forward",
+         additional=None, malformed=None),
+    dict(thr=[1700000000.0 + 3600.0 * k for k in range(6)], rows=[[0.0, 0.125, 0.25, 0.5, 0.875, 1.0]], extra={}, order=["T"],
+         oob=False, scale="epoch+3600k", obs_dims=[], obs_vals=[1700000000.0 + 3600.0 * 3 + 1800.0], obs_order=[], w=None,
+         fillW="forward", additional=None, malformed=None),
+    dict(thr=[2.0 ** 30 + k for k in (0, 1, 2, 4, 8)], rows=[[0.125, 0.25, 0.5, 0.75, 1.0]], extra={}, order=["T"], oob=False,
+         scale="2^30+k", obs_dims=[], obs_vals=[2.0 ** 30 + 2.5], obs_order=[],
+         w=dict(thr=[2.0 ** 30 + k for k in (0, 2, 4)], dims=[], rows=[[0.5, 1.0, 0.25]], order=["T"]), fillW="forward",
+         additional=None, malformed=None),
+]
+
+
+def tol_close(c, impl, model, total=None):
+    """core.close for the order-1 cases; for a case on a numeric SCALE the tolerance is relative to the value and to the
+    row's exact total (all summands of the score are non-negative), 1e-9 as everywhere, so it neither loosens on small
+    magnitudes nor tightens below float accuracy on large ones"""
+    if "scale" not in c:
+        return core.close(impl, model)
+    if core.is_nan(model) or not isinstance(model, Fraction) or math.isnan(impl) or math.isinf(impl):
+        return core.close(impl, model)
+    t = abs(float(total)) if isinstance(total, Fraction) else 0.0
+    span = max(c["thr"]) - min(c["thr"])
+    return abs(impl - float(model)) <= 1e-9 * max(abs(float(model)), t) + 1e-13 * span
 
 
 REGRESSION = [
@@ -324,6 +494,9 @@ def correspondence(ctx):
         cases += cs
         if rng.random() < 0.3:
             cases.append(with_opts(b, rng.choice(FILLS), rng.choice(INTEGS), rng.random() < 0.5, False))
+    for sc in rng.sample(list(SCALES), ctx.n(4, 10)) + ([rng.choice(list(SCALES)) for _ in range(100)] if ctx.thorough else []):
+        b = gen_scaled_base(rng, sc)
+        cases += rng.sample(list(combos(ctx, rng, b)), 3)
     models = core.run_driver("C07", [{"op": "c07.crps", "args": args_of(c)} for c in cases])
     for c, m in zip(cases, models):
         batch = "impl-vs-model:crps_cdf:" + c["integ"]
@@ -410,9 +583,10 @@ def check_crps(ctx, c, spec, batch):
     for i, (r, s) in enumerate(zip(impl, spec)):
         exp = expected_parts(s)
         for k in keys:
-            if not core.close(r[k], exp[k]):
+            if not tol_close(c, r[k], exp[k], exp["total"]):
                 sig = {"exact": "differs-from-exact-weighted-integral", "trapz": "differs-from-trapezoid-sum"}[c["integ"]]
-                bad(sig, {"row": i, k: r[k]}, {k: exp[k]}, "exact_eq_spec" if c["integ"] == "exact" else "trapz_eq_spec", {"component": k})
+                bad(sig, {"row": i, k: r[k]}, {k: exp[k]}, "exact_eq_spec" if c["integ"] == "exact" else "trapz_eq_spec",
+                    dict({"component": k}, **({"scale": c["scale"]} if "scale" in c else {})))
                 break
         if c["components"] and not math.isnan(r["total"]):
             if not core.close_ff(r["under"] + r["over"], r["total"]):
@@ -496,7 +670,7 @@ def check_brier(ctx, c, spec, batch):
     obs = cc.obs_per_row(c)
     for i, s in enumerate(spec):
         grid = [core.parse_fl(x) for x in s["grid"]]
-        if not same(br["grid"], s["grid"]):
+        if not same(br["grid"], s["grid"]) or ("scale" in c and [Fraction(x) for x in br["grid"]] != grid):
             ctx.fail(batch, "property", "crps_cdf_brier_decomposition", "thresholds-not-the-union", c, observed=br["grid"], expected=s["grid"])
             break
         f = [core.parse_fl(x) for x in s["f"]]
@@ -515,6 +689,54 @@ def check_brier(ctx, c, spec, batch):
     return len(ctx.failures) - n0
 
 
+def run_observed(c, include):
+    """observed_cdf of the case's observations against the forecast thresholds: {'grid', 'rows'} per observation value"""
+    from scores.processing.cdf import observed_cdf
+    tdim = cc.fresh("thre", "shold")
+    try:
+        with np.errstate(all="ignore"):
+            da = observed_cdf(cc.mk_obs(c), tdim, threshold_values=list(c["thr"]), include_obs_in_thresholds=include, precision=0)
+        od = list(c["obs_dims"])
+        if set(da.dims) != set(od + [tdim]):
+            return {"err": "Other:unexpected-dims"}
+        n = da.sizes[tdim]
+        return {"grid": [float(v) for v in da[tdim].values],
+                "rows": np.asarray(da.transpose(*od, tdim).values, dtype=float).reshape(-1, n).tolist()}
+    except Exception as ex:  # noqa: BLE001
+        return {"err": core.exc_class(ex)}
+
+
+def heaviside_args(c, include):
+    return {"thr": [core.fl_str(x) for x in c["thr"]], "obs": [core.fl_str(x) for x in c["obs_vals"]], "include": include}
+
+
+def check_observed(ctx, c, include, spec, batch):
+    """observed_cdf itself: thresholds = exactly the union, value = H(x) = 1{x >= obs} of the Spec (exact, no tolerance:
+    every value is 0, 1 or NaN and every threshold is one of the inputs)"""
+    n0 = len(ctx.failures)
+    tags = {"include_obs_in_thresholds": include}
+    if "scale" in c:
+        tags["scale"] = c["scale"]
+    if all(math.isnan(v) for v in c["obs_vals"]) and not c["thr"]:
+        return 0
+    got = run_observed(c, include)
+    if "err" in got:
+        ctx.fail(batch, "property", "observed_cdf", "unexpected-exception", c, observed=got["err"], tags=tags)
+        return 1
+    grid = [core.parse_fl(x) for x in spec["grid"]]
+    if [Fraction(x) for x in got["grid"]] != grid:
+        ctx.fail(batch, "property", "observed_cdf", "thresholds-not-the-union", c, observed=got["grid"], expected=spec["grid"], tags=tags)
+        return 1
+    for i, (r, e) in enumerate(zip(got["rows"], spec["rows"])):
+        want = [core.parse_fl(x) for x in e]
+        ok = len(r) == len(want) and all((math.isnan(a) and core.is_nan(b)) or (not core.is_nan(b) and a == b) for a, b in zip(r, want))
+        if not ok:
+            ctx.fail(batch, "property", "observed_cdf", "differs-from-indicator-threshold>=obs", c,
+                     observed={"obs": c["obs_vals"][i], "grid": got["grid"], "row": r}, expected=e, tags=tags, theorem="brier_row_spec")
+            return len(ctx.failures) - n0
+    return len(ctx.failures) - n0
+
+
 def oracle(ctx, boost):
     rng = ctx.rng
     mult = 5 if boost else 1
@@ -529,6 +751,24 @@ def oracle(ctx, boost):
         cs = list(combos(ctx, rng, b))
         cases += cs
         cases.append(with_opts(b, rng.choice(FILLS), rng.choice(INTEGS), rng.random() < 0.5, False))
+    n_order1 = len(cases)
+    # the numeric scale of thresholds / observations: every scale once per run (large magnitudes twice), fixed instances
+    scaled = [dict(b) for b in SCALED_FIXED]
+    for sc in list(SCALES) + rng.sample(LARGE, 3) + [rng.choice(list(SCALES)) for _ in range(ctx.n(0, 200) * mult + (20 if boost else 0))]:
+        b = gen_scaled_base(rng, sc, near="above" if (sc in LARGE and rng.random() < 0.5) else None)
+        if sc in LARGE and rng.random() < 0.5:
+            b["w"] = None
+        scaled.append(b)
+    for b in scaled:
+        scale_tags(ctx, b)
+        cs = list(combos(ctx, rng, b))
+        # quick: both integration methods under two fill methods each (propagate_nans at random); thorough / boost: all 16
+        if ctx.thorough or boost:
+            cases += cs
+        else:
+            for integ in INTEGS:
+                for fillF in rng.sample(FILLS, 2):
+                    cases.append(with_opts(b, fillF, integ, rng.random() < 0.5, True))
     specs = core.run_driver("C07", [{"op": "c07.spec", "args": args_of(c)} for c in cases])
     for c, s in zip(cases, specs):
         batch = "property:crps_cdf:" + c["integ"]
@@ -536,8 +776,10 @@ def oracle(ctx, boost):
         ctx.tag("weight-class:" + weight_class(c, s))
         check_crps(ctx, c, s, batch)
     # relations and the Brier decomposition on a sample of (base, options)
-    rel = rng.sample(list(zip(cases, specs)), min(len(cases), ctx.n(120, 2000) * mult)) + \
-        [(c, s) for c, s in zip(cases[:48], specs[:48])]
+    order1 = list(zip(cases[:n_order1], specs[:n_order1]))
+    rel = rng.sample(order1, min(len(order1), ctx.n(120, 2000) * mult)) + order1[:48]
+    sc_cs = list(zip(cases[n_order1:], specs[n_order1:]))
+    rel += rng.sample(sc_cs, min(len(sc_cs), ctx.n(10, 600) * mult))
     for c, s in rel:
         ctx.case("property:relations", c, nontrivial=True)
         check_complement(ctx, c, "property:relations")
@@ -548,6 +790,18 @@ def oracle(ctx, boost):
             check_mean(ctx, c, "property:relations")
         elif r < 0.8 and c["propagate"]:
             check_brier(ctx, dict(c, w=None), s, "property:brier_decomposition") if c["w"] is None else None
+    # Brier decomposition and observed_cdf itself on every scaled base (and observed_cdf on a sample of the order-1 bases)
+    bs = [with_opts(dict(b, w=None), rng.choice(FILLS), "trapz", True, True) for b in scaled]
+    bspecs = core.run_driver("C07", [{"op": "c07.spec", "args": args_of(c)} for c in bs])
+    for c, s in zip(bs, bspecs):
+        ctx.case("property:brier_decomposition", c, nontrivial=True)
+        check_brier(ctx, c, s, "property:brier_decomposition")
+    ob = [(b, rng.random() < 0.6) for b in scaled + rng.sample(bases, min(len(bases), ctx.n(8, 200)))
+          if not all(math.isnan(v) for v in b["obs_vals"])]
+    ospecs = core.run_driver("C07", [{"op": "c07.heaviside", "args": heaviside_args(b, inc)} for b, inc in ob])
+    for (b, inc), s in zip(ob, ospecs):
+        ctx.case("property:observed_cdf", dict(b, include=inc), nontrivial=True)
+        check_observed(ctx, b, inc, s, "property:observed_cdf")
 
 
 def replay(ctx, payload):
@@ -569,6 +823,10 @@ def replay(ctx, payload):
         return check_complement(ctx2, c, "replay") > 0
     if rel == "mean":
         return check_mean(ctx2, c, "replay") > 0
+    if site == "observed_cdf":
+        inc = bool((payload.get("tags") or {}).get("include_obs_in_thresholds"))
+        s = core.run_driver("C07", [{"op": "c07.heaviside", "args": heaviside_args(c, inc)}])[0]
+        return check_observed(ctx2, c, inc, s, "replay") > 0
     s = core.run_driver("C07", [{"op": "c07.spec", "args": args_of(c)}])[0]
     if site == "crps_cdf_brier_decomposition":
         return check_brier(ctx2, c, s, "replay") > 0
